@@ -232,6 +232,7 @@ def worker(spec):
         return problems, list(tls.obs), tls.after_raise, tls.stub_checks
 
     def account(node, obs, after_raise, stubs, threaded):
+        res.evaluations += len(obs)   # an evaluation = one observation of the options in force
         res.count("observations", len(obs))
         res.count("restored_after_raise", after_raise)
         res.count("refusals_outside_checked")
@@ -257,7 +258,6 @@ def worker(spec):
             res.count("budget_cut")
             break
         node = gen(spec["depth"], (None, None), True)
-        res.evaluations += 1
         problems, obs, ar, stubs = run_top(node)
         account(node, obs, ar, stubs, False)
         if problems:
@@ -325,7 +325,6 @@ def worker(spec):
             steps += 1
         for t in threads:
             t.join(10)
-        res.evaluations += 1
         res.count("thread_cases")
         res.count("thread_switches_between_observations", switches)
         if errors:
